@@ -145,6 +145,15 @@ def check_X2(ctx, facts, cfg):
             cb = facts.bodies.get(cdef) if cdef else None
             if cb and any(cname(x) == R + 'net::status::Status::timeout' for _b, x in cb.calls()):
                 mapped = True
+    if not mapped:
+        # explicit match on the timed result: the Elapsed edge constructs Status::timeout
+        aw_blocks = [b for b, t in tg.calls() if cname(t) == 'core::future::into_future::IntoFuture::into_future' and tt['dest']['l'] in tflow.backward([op_local(t['args'][0])])]
+        for ab in aw_blocks:
+            re_ = ResultEdges(tg, tflow, ab)
+            for e in re_.err:
+                region = tg.reachable_from([e[1]])
+                if any(cname(x) == R + 'net::status::Status::timeout' and b in region and tg.edge_dominates(e, b) for b, x in tg.calls()):
+                    mapped = True
     ctx.ob('C14.X2', cfg + '|elapsed-to-timeout-status', mapped, site(tg, tt['cs']),
            'expiry is reported as Status::timeout' if mapped else 'expiry of the timeout is not mapped to Status::timeout')
 
